@@ -9,5 +9,4 @@ import VProps.PinC20
 #print axioms V.Pin.C20.tokens_tokens_handlers__GetUserFromToken
 #print axioms V.Pin.C20.tokens_tokens_handlers__ValidateToken
 #print axioms V.Pin.C20.tokens_tokens_handlers__verifyCaveats
-#print axioms V.Pin.C20.tokens_tokens_handlers__verifyExpiry
 #print axioms V.Pin.C20.tokens_tokens_type_TokenOptions
